@@ -236,8 +236,40 @@ func c14Paths(c *Case) {
 		dd["expr"], dd["config"], dd["ns_map"], dd["map_kind"] = src, config, fmt.Sprint(m), mkind
 		return dd
 	}
+	if !prefixed && hasNS {
+		// the namespace map concerns prefixed tests only: an expression WITHOUT any prefixed test selects the same
+		// nodes whatever map it is compiled with (nil, empty, keys for real prefixes, a key for the empty prefix)
+		base := c.compile(src, det)
+		if base == nil {
+			return
+		}
+		b := c.RunSelect(base, ctx)
+		bs, _ := AsSet(b.Nodes)
+		for _, mm := range []map[string]string{{}, {"": xgen.NSURIs[g.Intn(3)]}, {"": ""}, {"p": xgen.NSURIs[0], "": xgen.NSURIs[1]}, m} {
+			if mm == nil {
+				continue
+			}
+			ce2, err2 := xpath.CompileWithNS(src, mm)
+			c.Rep.Evals++
+			if err2 != nil {
+				dd := det()
+				dd["ns_map"], dd["error"] = fmt.Sprint(mm), err2.Error()
+				c.Violation("PREFIX-FREE-EXPRESSION-REJECTED-UNDER-A-MAP", dd)
+				return
+			}
+			o := c.RunSelect(ce2, ctx)
+			os, _ := AsSet(o.Nodes)
+			c.Count("map-irrelevant-without-prefix")
+			if o.Aborted() || !SameNodes(os, bs) {
+				dd := det()
+				dd["ns_map"], dd["without_map"], dd["with_map"] = fmt.Sprint(mm), xdoc.Labels(bs), xdoc.Labels(os)
+				c.Violation("MAP-CHANGES-A-PREFIX-FREE-EXPRESSION", dd)
+				return
+			}
+		}
+	}
 	if config == "ii" {
-		// unprefixed name tests under a map are not asserted (statement silent)
+		// unprefixed name tests under a map are not asserted against the reference (statement silent)
 		silent := false
 		xref.WalkSteps(p, func(s *xref.Step) {
 			if s.Test.Kind == "name" && s.Test.Prefix == "" {
